@@ -375,7 +375,7 @@ AStep(t, M(_)) ==
        \* ---- invoke / run
     [] f.pc = "i_vadd" ->
          Faa(t, L("wvn", 0, 0), 1, "closure_vertex_add", M,
-             LAMBDA old, s : FlagH([s EXCEPT !.H.subm = @ \cup {f.v}, !.fs = Goto(fs, "i_exec")], s.H.waited, "QuiescentAfterWait"))
+             LAMBDA old, s : FlagH([s EXCEPT !.H.subm = @ \cup {f.v}, !.fs = Goto(fs, "i_exec")], s.H.waited /\ (s.H.code = 0 \/ R.ij = 0), "QuiescentAfterWait"))
     [] f.pc = "x_fload" ->
          Load(t, L("cb", 0, 0), "run_finished_load", M,
               LAMBDA old, s : IF old = SEALED THEN WithFs(s, SetTop(fs, [f EXCEPT !.pc = "x_done", !.k = 0]))
@@ -477,7 +477,9 @@ MGet(t) ==
 \* closure.wait() returned
 MWait(t) ==
   /\ t = 0 /\ st[0] # <<>> /\ Top(st[0]).pc = "m_wait" /\ sh.flushed
-  /\ LET bad == IF H.running # {} \/ H.subm # {} THEN {"WaitReturnsAfterAllFinished"} ELSE {}
+  \* (a run that failed while another thread was still publishing one of its inputs is over: what that late input
+  \*  starts afterwards is outside the property)
+  /\ LET bad == IF (H.running # {} \/ H.subm # {}) /\ (H.code = 0 \/ R.ij = 0) THEN {"WaitReturnsAfterAllFinished"} ELSE {}
          s == [S0(0) EXCEPT !.H.waited = TRUE, !.H.bad = @ \cup bad, !.fs = Goto(st[0], "m_reset")]
      IN Commit(0, mem, s, Event(0, "waitret", 0, 0))
 
